@@ -31,7 +31,8 @@ def answer (line : String) : String :=
   match toks with
   | p :: op :: rest =>
     match String.ofList p with
-    | "C01" => if String.ofList op == "morph" then EditM.handleMorph rest else EditM.handle rest
+    | "C01" => if String.ofList op == "morph" then EditM.handleMorph rest
+               else if String.ofList op == "part" then Total.handlePart rest else EditM.handle rest
     | "C17" => CharCat.handle rest
     | "C08" => if op = "morphc".toList then EditM.handleMorphC rest else EditM.handle rest
     | "C02" => Vit.handleRec rest
